@@ -25,6 +25,10 @@ INFO = {
  'C17b': ("a source released without being cancelled is never finalised (finalizer never runs, memory leaks)", "the last dispatch_release lands while a worker is inside the source's invoke after the handler returned and before the drain lock is dropped: the wake-up no longer marks the source DIRTY, so nobody invokes it again"),
  'C14b': ("bytes consumed from the descriptor are not delivered to the read handler", "a stream read with bytes buffered below the low-water mark that then ends with an error (close with STOP -> ECANCELED, ECONNRESET): the buffered bytes are dropped instead of being delivered before the final invocation"),
  'C01b': ("a dispatch_barrier_async item and everything behind it is stranded", "concurrent queue, readers in flight, barrier at the head, drainer failed the full-width upgrade (PENDING_BARRIER) and the last reader completes before the drainer's unlock: the completing reader no longer sets DIRTY when PENDING_BARRIER is set"),
+ 'C02b': ("two dispatch_async_and_wait items overlap on a serial queue / the queue stays owned (hang, 'already owned' crash)", "a block object made with dispatch_block_create (private data, no BARRIER flag) submitted with dispatch_async_and_wait to a serial queue: the width-1 barrier flag is set after the early return for private-data blocks, so the item takes the non-barrier path"),
+ 'C06b': ("items start while 32 x k suspensions are still outstanding; the next resume crashes as an over-resume", "nesting depth >= 96 (two SUSPEND_HALF units in the side counter) followed by >= 64 resumes: the HAS_SIDE_SUSPEND_CNT bit is cleared on every transfer back instead of on the last one"),
+ 'C08b': ("dispatch_semaphore_wait(FOREVER) returns 0 without a matching signal; a stale kernel post later satisfies an unrelated wait", "a thread blocked in sem_wait on the slow path is interrupted (EINTR): the retry loop around sem_wait was removed"),
+ 'C05b': ("a semaphore wait is satisfied by a stale post with no signal after the write (semaphore edge of the visibility clause); the count stays off by one", "a timed / polling wait times out while a signal's -1 -> 0 increment lands before the waiter re-reads the value: the undo loop also runs for value 0 (same mechanism as the first-round C08 change, delivered independently for C05)"),
  'C19': ("a dispatch_block_cancel that has returned is undone: testcancel reports 0 and the body runs", "another thread cancels while a timed dispatch_block_wait is in progress and that wait then times out: the time-out path writes back the flag word it read on entry instead of clearing only its own bit"),
 }
 V = '/verif'
